@@ -543,6 +543,40 @@ def _rebuilt_object_roundtrip(prog, ci, cname, lfn, var, values, rel):
     return out
 
 
+def _keys_read_by_callees(prog, mi, lfn, dname, depth=0):
+    """Keys of the loaded archive read by module-level helpers of the repository that load hands the archive to
+    (`bounds = _load_bounds(D, "PcaChain")`): the literal subscripts of the receiving parameter, transitively."""
+    out = set()
+    if depth > 2:
+        return out
+    for n in ast.walk(lfn):
+        if not (isinstance(n, ast.Call) and isinstance(n.func, ast.Name)):
+            continue
+        pos = [i for i, a in enumerate(n.args) if isinstance(a, ast.Name) and a.id == dname]
+        kws = [k.arg for k in n.keywords if isinstance(k.value, ast.Name) and k.value.id == dname and k.arg]
+        if not pos and not kws:
+            continue
+        callee, cmi = None, None
+        if n.func.id in mi.functions:
+            callee, cmi = mi.functions[n.func.id], mi
+        else:
+            q = mi.imports.get(n.func.id, "")
+            if q.startswith("inference."):
+                modname, _, nm = q.rpartition(".")
+                m2 = prog.modules.get(modname)
+                if m2 is not None and nm in m2.functions:
+                    callee, cmi = m2.functions[nm], m2
+        if callee is None:
+            continue
+        ps = [a.arg for a in callee.args.args]
+        names = [ps[i] for i in pos if i < len(ps)] + [k for k in kws if k in ps]
+        for pn in names:
+            out |= {x.slice.value for x in ast.walk(callee) if isinstance(x, ast.Subscript) and isinstance(x.value, ast.Name)
+                    and x.value.id == pn and isinstance(x.slice, ast.Constant) and isinstance(x.slice.value, str)}
+            out |= _keys_read_by_callees(prog, cmi, callee, pn, depth + 1)
+    return out
+
+
 def _load_forwards(prog, ci, cname, lfn, rel):
     """What the caller hands to load (the density, its gradient) reaches the reloaded sampler under its own name: as keyword
     `posterior=posterior`, or stored as `<chain>.posterior = posterior` - never into the slot / attribute of another argument."""
@@ -894,6 +928,7 @@ def run(prog, tier):
                 break
         read_k = {n_.slice.value for n_ in ast.walk(lfn) if isinstance(n_, ast.Subscript) and isinstance(n_.value, ast.Name)
                   and n_.value.id == dn_ and isinstance(n_.slice, ast.Constant)}
+        read_k |= _keys_read_by_callees(prog, ci.module, lfn, dn_)
         delegated = set()
         if any(isinstance(n_, ast.Call) and isinstance(n_.func, ast.Attribute) and n_.func.attr == "load_items" for n_ in ast.walk(lfn)):
             delegated = set(es_read)
